@@ -241,7 +241,7 @@ def run(ctx):
     process(ctx, run_jobs(jobs), "corpus", True)
 
     # ------------------------------------------------------------ seeded random histories
-    n = ctx.n(300, 10000)
+    n = ctx.n(300, 6000)
     jobs = []
     for i in range(n):
         cfg = random_cfg(ctx.rng)
@@ -255,7 +255,7 @@ def run(ctx):
     # ------------------------------------------------------------ small-scope enumeration
     base = dict(sub_item=False, sub_hist=False, sub_tok=False, max_age=100)
     allsub = dict(sub_item=True, sub_hist=True, sub_tok=True, max_age=100)
-    plans = [(base, ctx.n(2, 4), "all"), (base, ctx.n(2, 3), "one"), (allsub, ctx.n(1, 3), "all"), (allsub, ctx.n(0, 3), "one")]
+    plans = [(base, ctx.n(2, 4), "all"), (base, ctx.n(2, 3), "one"), (allsub, ctx.n(1, 3), "all"), (allsub, ctx.n(0, 2), "one")]
     jobs = []
     for cfg, maxlen, mode in plans:
         for i, ops in enumerate(enum_histories(maxlen, cfg, mode)):
